@@ -2868,6 +2868,95 @@ func c02Targeted(t *testing.T, out *c02Out, seed int64) {
 		}
 		w.ctrl.Finish()
 	}
+	// (j) the server's own request objects, also of USER legs (method post): a world whose policy has an organization + user
+	//     scope; for every leg of a full flow: the right fetch (post also with wallet nonce / issuer), the other method first,
+	//     another tenant first, and always a second fetch
+	{
+		var g *c02Gen
+		var cfg c02Op
+		for try := 0; try < 40; try++ {
+			g = &c02Gen{rng: rng, subjects: []string{"alpha", "alpha2", "beta"}}
+			cfg = g.newConfig(false)
+			both := false
+			for _, p := range g.policy {
+				both = both || len(p.Defs) > 1
+			}
+			if both {
+				break
+			}
+		}
+		w := c02NewWorld(t, cfg)
+		cfg.T = w.nowNs()
+		out.emit(&cfg, "cfg")
+		fetch := func(ro *c02GenRO, variant int) {
+			right := c02Op{Op: "reqobj", ID: ro.Name, Subject: ro.Subject, Method: "get"}
+			if ro.Owner == "user" {
+				right.Method = "post"
+				if variant%2 == 0 {
+					right.WalletNonce = c02Ptr("wn-1")
+					right.WalletIssuer = c02Ptr([]string{"https://wallet.example", "https://self-issued.me/v2"}[variant/2%2])
+				}
+			}
+			first := right
+			switch variant % 3 {
+			case 1:
+				first.Defects = []string{"other-method"}
+				if first.Method == "get" {
+					first.Method = "post"
+				} else {
+					first.Method, first.WalletNonce, first.WalletIssuer = "get", nil, nil
+				}
+			case 2:
+				first.Defects = []string{"other-tenant"}
+				first.Subject = "beta"
+				if ro.Subject == "beta" {
+					first.Subject = "alpha"
+				}
+			}
+			out.emit(&first, w.exec(&first))
+			again := right
+			again.Defects = []string{"second-fetch"}
+			out.emit(&again, w.exec(&again))
+		}
+		variant := 0
+		for flow := 0; flow < 9; flow++ {
+			var req c02Op
+			var sess *c02GenSession
+			for try := 0; try < 40; try++ {
+				req, sess = g.authRequest(nil)
+				if len(sess.Spec.Required) > 1 || flow%3 == 2 {
+					break
+				}
+			}
+			line := w.exec(&req)
+			g.noteROs(&req, line)
+			out.emit(&req, line)
+			if !strings.HasPrefix(line, "302 ") {
+				continue
+			}
+			f := strings.Fields(line)
+			sess.State, sess.Nonces = f[1][len("state="):], []string{f[2][len("nonce="):]}
+			g.sessions = append(g.sessions, sess)
+			for round := 0; round < 3; round++ {
+				for _, ro := range g.ros {
+					if !ro.Fetched {
+						ro.Fetched = true
+						fetch(ro, variant)
+						variant++
+					}
+				}
+				ar := g.authResponse(sess, nil, w.nowMs())
+				al := w.exec(&ar)
+				g.noteROs(&ar, al)
+				out.emit(&ar, al)
+				if !strings.HasPrefix(al, "200 next=") {
+					break
+				}
+				sess.Nonces = append(sess.Nonces, strings.Fields(al)[2][len("nonce="):])
+			}
+		}
+		w.ctrl.Finish()
+	}
 	// (b)
 	g := &c02Gen{rng: rng, subjects: []string{"alpha", "alpha2", "beta"}}
 	cfg := g.newConfig(false)
